@@ -177,7 +177,7 @@ func genOps(r *Rng, bl []gblock, nops int, adversarial bool, restarts bool) Sx {
 // heights and in its NON-head blocks (so that a multi-block reorg re-indexes them).
 // big: the blocks carry LOG-loop txs, several hundred logs each, so that reorg's 512-log
 // chunking of removed and re-added logs is crossed several times on both sides.
-func genTwoBranches(r *Rng, big bool) ([]gblock, []int, []int) {
+func genTwoBranches(r *Rng, big bool) ([]gblock, []int, []int, []int) {
 	bl := []gblock{{id: 0, used: map[int]bool{}}}
 	add := func(parent int, txs []int) int {
 		b := gblock{id: len(bl), parent: parent, number: bl[parent].number + 1, txs: txs}
@@ -185,8 +185,10 @@ func genTwoBranches(r *Rng, big bool) ([]gblock, []int, []int) {
 		return b.id
 	}
 	tip := 0
+	var prefix []int
 	for i := r.Intn(3); i > 0; i-- {
 		tip = add(tip, nil)
+		prefix = append(prefix, tip)
 	}
 	la, lb := r.Range(2, 5), r.Range(2, 5)
 	pool := r.Intn(nSmallTx - 12) // small tx ids pool, pool+1, ...
@@ -235,7 +237,7 @@ func genTwoBranches(r *Rng, big bool) ([]gblock, []int, []int) {
 		p = add(p, txs)
 		branchB = append(branchB, p)
 	}
-	return bl, branchA, branchB
+	return bl, prefix, branchA, branchB
 }
 
 func noHeadThenCanonical(ops SL, branch []int) SL {
@@ -245,8 +247,11 @@ func noHeadThenCanonical(ops SL, branch []int) SL {
 	return append(ops, L(I(2), I(int64(branch[len(branch)-1]))))
 }
 
-func genTwoBranchOps(r *Rng, a, b []int) SL {
+func genTwoBranchOps(r *Rng, prefix, a, b []int) SL {
 	ops := SL{}
+	if len(prefix) > 0 {
+		ops = append(ops, L(I(0), idList(prefix)))
+	}
 	if r.Bool() {
 		ops = append(ops, L(I(0), idList(a)))
 	} else {
@@ -281,8 +286,8 @@ func gen(r0 *Rng, tier string, emit func(c Sx)) {
 		if i%5 == 2 || i%37 == 5 {
 			// two-branch families: multi-block SetCanonical reorgs with shared txs (every 5th
 			// case) and large reorgs crossing the 512-log chunk threshold (every 37th)
-			bl, a, b := genTwoBranches(r, i%37 == 5)
-			emit(SL{treeSx(bl), genTwoBranchOps(r, a, b), I(1)})
+			bl, pre, a, b := genTwoBranches(r, i%37 == 5)
+			emit(SL{treeSx(bl), genTwoBranchOps(r, pre, a, b), I(1)})
 			continue
 		}
 		n := r.Range(3, 26)
